@@ -116,3 +116,13 @@ Theorem sanitize_valid s : bytes s -> valid_utf8 s = true -> sanitize s = s.
 Proof.
   intros Hb Hv. unfold sanitize, runes, decode_all, valid_utf8 in *. apply sanitize_valid_go; auto.
 Qed.
+
+(* one decoding step: either one invalid byte reported as U+FFFD, or a scalar value whose encoding is exactly the bytes consumed *)
+Theorem rune_step s c w : bytes s -> s <> [] -> decode s = (c, w) ->
+  (c = RuneError /\ w = 1%nat) \/ (valid_scalar c /\ encode c = firstn w s).
+Proof.
+  intros Hb Hs Hd. destruct (Z.eq_dec c RuneError) as [Ec|Ec]; [destruct (Nat.eq_dec w 1) as [Ew|Ew]|].
+  - left. split; assumption.
+  - right. apply (decode_inv s c w Hb Hd); [|exact Hs]. intros E. inversion E. contradiction.
+  - right. apply (decode_inv s c w Hb Hd); [|exact Hs]. intros E. inversion E. contradiction.
+Qed.
